@@ -183,6 +183,10 @@ def commit (rootHist : Hist) (s : Session) (rootFolderName stamp process : Strin
     else
       let nl := s.get h.root
       let records ← nl.records.mapM validateRecord
+      -- `_media_hash_xml_element` writes the format elements of a file record sorted by format name (stable);
+      -- directory records keep their order
+      let records := records.map fun r =>
+        if r.isDir then r else { r with entries := isort (fun a b => strLe a.fmt b.fmt) r.entries }
       let number := latestGenerationNumber h.gens + 1
       let folder := (h.root.getLast?).getD rootFolderName
       let fileName := match customBase with
